@@ -120,6 +120,15 @@ def run (k : KeyCfg) (w : World) (c : Cache) (h : List Ev) : List Label := answe
 /-- what every call must answer: the label of its own operands in the world as it is at that moment -/
 def spec (w : World) (h : List Ev) : List Label := (observed w h).map label
 
+/-- the memo after a history of calls -/
+def finalCache (k : KeyCfg) : Cache → List Call → Cache
+  | c, [] => c
+  | c, a :: rest => finalCache k (call k c a).1 rest
+
+/-- number of cache misses of a history from process start (every miss stores exactly one entry; compared with
+    `cache_info().misses` of the live `lru_cache` of a memoised unit rule) -/
+def missesOf (k : KeyCfg) (w : World) (h : List Ev) : Nat := (finalCache k [] (observed w h)).length
+
 /-- one regenerated row: the memo configuration the history probes of the live handler reveal -/
 structure MemoRow where
   func : String
